@@ -74,7 +74,7 @@ def derive(api, rng, convs, recs_of):
 def run_case(ctx, g, rng):
     api, S = ctx.api, probe.S
     # inputs with a past: constructed, registered record by record, or grown through merges (DESIGN 11.4)
-    inputs = [gen.build(api, gconv(rng), ":", rng)[0] for _ in range(rng.randint(1, 3))]
+    inputs = [gen.build(api, gconv(rng), ":", rng, share_lists=True)[0] for _ in range(rng.randint(1, 3))]
     before = [spec.snapshot(c) for c in inputs]
     kind, o, used = derive(api, rng, inputs, before)
     S.counters[f"wl:derive:{kind}:{o[0]}"] += 1
